@@ -517,6 +517,11 @@ pub fn ring_polybase_ops(s: &mut Src) -> R {
     ob!(same(&c, &ddif), "PolyBase::sub_assign::coefficientwise-difference");
     let mut c = a.clone(); c *= &b;
     ob!(same(&c, &dmul), "PolyBase::mul_assign::ring-product-in-every-branch");
+    // leading term: largest exponent among the non-zero coefficients; (1, 0) for the zero polynomial
+    let top = (0..D).rev().find(|&i| da[i] != 0);
+    let (lx, lc) = a.lead_term();
+    ob!(match top { Some(i) => *lx == P::mono(i as isize - 2 * W as isize) && *lc == da[i], None => *lx == P::mono(0) && *lc == 0 }, "PolyBase::lead_term-is-the-top-term");
+    ob!(a.lead_deg() == top.map(|i| i as isize - 2 * W as isize).unwrap_or(0) && *a.lead_coeff() == top.map(|i| da[i]).unwrap_or(0), "PolyBase::lead_deg/lead_coeff");
     // units: a x^i with a a unit; is_unit <=> inv.is_some(), and a * inv == 1
     use yui::Ring;
     ob!(a.is_unit() == a.inv().is_some(), "PolyBase::is_unit-iff-inv-is-some");
